@@ -32,8 +32,20 @@ META = {
                   'suffixed sets x 9 methods (514); thorough = <= 2 calls with 4 resource kinds (6 838) and <= 3 calls with 2 '
                   'kinds and six of the sink prefixes (53 102).  Replay: the one-call tables in full, two-call tables over reduced pools (quick) / in full, the two stacks taking turns per configuration '
                   '(thorough), TLC-simulated 4-6 call histories with sampled rows; random apps up to 12 routes / 6 sinks / 3 '
-                  'static routes with assembly interleaved with requests.  Route templates have literal and single-field '
-                  'segments only (converters / multi-field segments belong to C01); sink prefixes are built from literal text, '
+                  'static routes with assembly interleaved with requests.  Route templates have literal, single-field and '
+                  'multi-field segments without converters (the split of a multi-field segment is C01\'s SegMatch!Split, instantiated, '
+                  'not copied; converters belong to C01).  Metacharacter / multi-field instance (CxTemplates: /repos/v1.0/notes, '
+                  '/repos/v{major}.{minor}, /files/{a}-{b}/raw, /files/{stem}.{ext}, /files/{a}-{b}; static prefixes /v1.0 and /a+b in both '
+                  'spellings x fallback; sinks /, literal /v1.0, /repos; 17 paths incl. /v1x0/f, /aab/f, /repos/v1x0, /repos/v2.10.3, '
+                  '/files/my-notes.txt x GET/POST/OPTIONS): every configuration of <= 2 calls (926) is checked clause by clause by TLC and '
+                  'replayed (quick: stacks in turn; thorough: both stacks, + exhaustive check of <= 3 calls, + simulated 4-call histories); '
+                  'two must-fail instances prove that the pools contain a path a pattern reading of a static prefix would claim and a '
+                  'route behind an earlier sibling (literal / older multi-field) that matches the segment and dead-ends, under a matching '
+                  'sink and with a 405.  Creation order of multi-field siblings is state (entry field ord).  Random apps add multi-field '
+                  'segments (5 shapes), literal siblings their patterns match, static / sink text /v1.0 /.well-known /a+b /x(1) /c/v1.0 with '
+                  'request paths differing exactly at the metacharacter, and dedicated dead-end families under sinks / static routes.  '
+                  'In quick the dead-end-under-a-fallback case (3 calls) reaches the code through the random apps only.  Line feeds in '
+                  'path segments and field converters are not in the request universe here (C01).  Sink prefixes are built from literal text, '
                   'named and unnamed \\d+ / [^/]+ groups, unnamed alternations, trailing optional unnamed groups and named groups '
                   'inside optional (non-)capturing groups (key set of the kwargs = all named groups: P; the None of a group that '
                   'took no part: D); static prefixes in both spellings (/a, /a/); every 3-call re-registration history of '
@@ -69,6 +81,7 @@ def cps(s):
 
 
 def template_str(tmpl):
+    # 'lit': the text, 'var': one field spanning the segment, 'cx': a multi-field segment, s = the segment as written
     return '/' + '/'.join(('{%s}' % text(s['s'])) if s['k'] == 'var' else text(s['s']) for s in tmpl)
 
 
@@ -473,8 +486,9 @@ def run(ctx):
                 'least two of {route, sink, static route}; distinct by hash of the case')
     ctx.trusted_base = ['TLC 1.8 evaluation of spec/Dispatch.tla', 'engine/drivers.py (raw WSGI/ASGI drivers)',
                         'CPython re (sink prefixes are handed to falcon as pattern strings)', 'os / tempfile']
-    ctx.assumptions = ['route templates use literal and single-field segments and never two different field names at one '
-                       'position (the router refuses those: C01)',
+    ctx.assumptions = ['route templates use literal, single-field and multi-field segments without converters, never two different '
+                       'simple fields nor two multi-field segments of one shape at one position (the router refuses those: C01)',
+                       'a static route refuses a remainder that ends with "." (modelled in Serves only to recognise who answered: C16)',
                        'sink prefixes stay inside the pattern language of Dispatch!WellFormedSink (run groups are followed by the end, a '
                        'literal starting with "/" or a trailing optional group; optional groups are unnamed and last)',
                        'the outcome does not depend on the stack: the same table is demanded from falcon.App and '
@@ -512,7 +526,20 @@ def leg_m(ctx):
         rw = ctx.tlc('MC_Dispatch', cfg, workers=4, timeout=300, must_hold=False, count=False)
         if rw.violated != want:
             raise MachineryError('vacuity: %s should violate %s, TLC reported %r' % (cfg, want, rw.violated))
-    ctx.extra['wrong_design_instances_rejected'] = ['NewestFirst=FALSE -> InvLifo', 'RoutesFirst=FALSE -> InvRouteMasksFallbacks']
+    # metacharacter text / multi-field siblings: the instance must CONTAIN the cases (a static prefix read as a pattern would
+    # claim other paths; a walk that stops at the first sibling matching the segment would answer differently, under a sink
+    # that matches too and with a method that is not implemented)
+    for cfg, want in (('MC_DispatchCxW1.cfg', 'InvStaticPrefixCouldBePattern'), ('MC_DispatchCxW2.cfg', 'InvNoDeadEndMasking405')):
+        rw = ctx.tlc('MC_Dispatch', cfg, workers=4, timeout=300, must_hold=False, count=False)
+        if rw.violated != want:
+            raise MachineryError('vacuity: %s should violate %s, TLC reported %r' % (cfg, want, rw.violated))
+    if not ctx.quick:
+        rc = ctx.tlc('MC_Dispatch', 'MC_DispatchCx.cfg', coverage=True, workers=6, timeout=2400)
+        ctx.require_coverage(rc, ['XAddRoute', 'XAddSink', 'XAddStatic'])     # its one resource kind has responders under both suffixes
+        states.append(rc.distinct)
+    ctx.extra['wrong_design_instances_rejected'] = ['NewestFirst=FALSE -> InvLifo', 'RoutesFirst=FALSE -> InvRouteMasksFallbacks',
+                                                    'static prefix read as a pattern -> InvStaticPrefixCouldBePattern',
+                                                    'walk without backtracking over multi-field siblings -> InvNoDeadEndMasking405']
     ctx.progress('leg M done: %s distinct states' % states)
 
 
@@ -540,6 +567,27 @@ def leg_a(ctx, dirs):
         ncfg += len(cfgs2)
         ctx.progress('leg A (exhaustive tables, %s): %d configurations, %d requests replayed in total'
                      % (cfg, len(cfgs2), replayed))
+    # metacharacters in static / sink text, literal + multi-field and multi-field + multi-field siblings with dead-ending
+    # branches: every configuration of <= 2 calls; TLC checks every clause on it (one pass) and exports its table
+    rx = ctx.tlc('MC_Dispatch', 'MC_DispatchCxA.cfg', coverage=True, workers=6, timeout=1200)
+    ctx.require_coverage(rx, ['AAddRoute', 'AAddSink', 'AAddStatic'])
+    cfgsx = {digest([b['h'], b['sbs']]): b for b in rx.json}
+    del rx
+    for i, k in enumerate(sorted(cfgsx)):
+        replayed += replay_config(ctx, cfgsx[k], ((i + ctx.seed) % 2 == 1,) if ctx.quick else (False, True), dirs)
+    ncfg += len(cfgsx)
+    ctx.progress('leg A (metacharacters / multi-field siblings, MC_DispatchCxA.cfg): %d configurations, %d requests replayed in total'
+                 % (len(cfgsx), replayed))
+    if not ctx.quick:
+        rs = ctx.tlc('MC_Dispatch', 'MC_DispatchCxSim.cfg', simulate={'num': 10}, depth=8, seed=ctx.seed + 2, workers=4,
+                     timeout=1200, count=False)
+        cfgsy = {digest([b['h'], b['sbs']]): b for b in rs.json}
+        del rs
+        for k in sorted(cfgsy):
+            replayed += replay_config(ctx, cfgsy[k], (False, True), dirs, sample=40)
+        ncfg += len(cfgsy)
+        ctx.progress('leg A (simulated 4-call histories, multi-field pools): %d configurations, %d requests replayed in total'
+                     % (len(cfgsy), replayed))
     rs = ctx.tlc('MC_Dispatch', ctx.pick('MC_DispatchSim.cfg', 'MC_DispatchSim6.cfg'), simulate={'num': ctx.pick(3, 50)},
                  depth=8, seed=ctx.seed + 1, workers=4, timeout=1200, count=False)
     cfgs3 = {digest([b['h'], b['sbs']]): b for b in rs.json}
@@ -559,6 +607,19 @@ def leg_a(ctx, dirs):
 # ---------------------------------------------------------------------------------------------
 LITS = ['a', 'b', 'c', 'ab', '1', '22', 'x1', 'a1']
 VALS = LITS + ['', '7', '123', 'zz', 'a b'.replace(' ', '_')]
+# multi-field segments (field names carry a number unique per parent node and shape: no name twice in a template)
+CX_SEGS = ['v{major%d}.{minor%d}', '{a%d}-{b%d}', '{stem%d}.{ext%d}', '{n%d}.tar.{z%d}', 'img{k%d}']
+CX_LITS = ['v1.0', 'my-notes.txt', 'a-b', 'img7']                       # literal siblings their patterns match as well
+CX_VALS = ['v1.0', 'v1x0', 'v2.10.3', 'my-notes.txt', 'a-b', 'x.y', 'img7', 'img', 'pkg.tar.gz', 'v1.', '-.']
+META_PREFIXES = ['/v1.0', '/.well-known', '/a+b', '/x(1)', '/c/v1.0']  # plain text to add_static_route, re.escape()d in sinks
+
+
+def meta_variants(pre):
+    """paths that differ from the prefix exactly where a regular expression would be lenient"""
+    out = {pre.replace('.', 'x'), pre.replace('.', ''), pre.replace('a+b', 'aab'), pre.replace('a+b', 'ab'),
+           pre.replace('(1)', '1'), pre.replace('.', '/')}
+    out.discard(pre)
+    return sorted(out)
 B_METHODS = list(HTTP_LIKE) + ['WEBSOCKET']
 
 
@@ -597,10 +658,17 @@ def gen_scenario(rng):
         t = list(pre)
         while len(t) < max(depth, len(pre)) or not t:
             key = tuple((x['k'], tuple(x['s'])) for x in t)
-            if rng.random() < 0.35:
+            r = rng.random()
+            if r < 0.30:
                 if key not in names:
                     names[key] = 'v%d' % len(names)
                 t.append({'k': 'var', 's': cps(names[key])})
+            elif r < 0.42 and not any(x['k'] == 'cx' for x in t):
+                cx = rng.choice(CX_SEGS)
+                u = names.setdefault((key, cx), len(names))       # one text per (parent node, shape); names unique per app
+                t.append({'k': 'cx', 's': cps(cx % ((u,) * cx.count('%d')))})
+            elif r < 0.50:
+                t.append({'k': 'lit', 's': cps(rng.choice(CX_LITS))})
             else:
                 t.append({'k': 'lit', 's': cps(rng.choice(LITS))})
         if rng.random() < 0.08 and t[-1]['s']:
@@ -615,7 +683,8 @@ def gen_scenario(rng):
         return sorted(set(ms))
 
     def path_for_template(t):
-        return '/' + '/'.join(rng.choice(VALS) if x['k'] == 'var' else seg_text(x) for x in t)
+        return '/' + '/'.join(rng.choice(VALS) if x['k'] == 'var' else rng.choice(CX_VALS) if x['k'] == 'cx' else seg_text(x)
+                              for x in t)
 
     def gen_path():
         r = rng.random()
@@ -689,6 +758,66 @@ def gen_scenario(rng):
             for q in rng.sample(probes, 2):
                 steps.append(('req', rng.choice(('GET', 'HEAD', 'OPTIONS')), q))
         prefixes.append(pre)
+    # text with regular-expression metacharacters: a static route (plain prefix) over an older sink / static route;
+    # requests that differ from the prefix exactly at the metacharacter belong to the older one (or to nobody)
+    if rng.random() < 0.4:
+        pre = rng.choice(META_PREFIXES)
+        probes = [pre + '/f', pre, pre + '/'] + [v + '/f' for v in meta_variants(pre)] + meta_variants(pre)[:1]
+        order = [rng.choice(('sinkroot', 'sinklit', 'staticparent', 'none')), 'static']
+        if rng.random() < 0.3:
+            order.reverse()
+        for what in order:
+            if what == 'none':
+                continue
+            n_calls += 1
+            if what == 'static':
+                steps.append(EV('static', id=n_calls, prefix=cps(pre), fb=rng.random() < 0.5, sl=rng.random() < 0.4))
+                prefixes.append(pre)
+            elif what == 'staticparent':
+                steps.append(EV('static', id=n_calls, prefix=cps(meta_variants(pre)[0]), fb=rng.random() < 0.5, sl=False))
+            else:
+                pat = [{'k': 'lit', 's': cps('/' if what == 'sinkroot' else pre)}]
+                steps.append(EV('sink', id=n_calls, pat=pat))
+                sinkpats.append((pat, pre + '/f'))
+            for q in rng.sample(probes, 3):
+                steps.append(('req', rng.choice(('GET', 'GET', 'HEAD', 'OPTIONS')), q))
+        sinkpaths.extend(probes)
+    # siblings none of which is a simple field: a literal / an older multi-field segment whose branch holds nothing for
+    # the path, next to the multi-field segment that does; under a sink / static route that matches too
+    if rng.random() < 0.5:
+        root = rng.choice(('repos', 'files', 'dl'))
+        fam = rng.choice((
+            (['v1.0', 'notes'], ['v{major}.{minor}'], ['v1.0', 'v1.0/notes', 'v2.10.3', 'v1x0', 'v1.']),
+            (['{a}-{b}', 'raw'], ['{stem}.{ext}'], ['my-notes.txt', 'my-notes.txt/raw', 'my-notes', 'notes.txt', '-.']),
+            (['{a}-{b}', 'raw'], ['{a}-{b}.{ext}'], ['my-notes.txt', 'my-notes.txt/raw', 'my-notes/raw', 'notes.txt']),
+            (['img7', 'meta'], ['img{k}'], ['img7', 'img7/meta', 'img12', 'img']),
+        ))
+        tms = [[root] + fam[0], [root] + fam[1]]
+        if rng.random() < 0.4:
+            tms.reverse()
+        calls = [('route', t) for t in tms]
+        fbk = rng.choice(('sinkroot', 'sinkpre', 'static', 'none'))
+        if fbk != 'none':
+            calls.insert(rng.randint(0, 2), (fbk, None))
+        probes = ['/%s/%s' % (root, x) for x in fam[2]] + ['/' + root]
+        for kind, t in calls:
+            n_calls += 1
+            if kind == 'route':
+                tm = [{'k': 'cx' if ('{' in x and not (x[0] == '{' and x[-1] == '}' and x.count('{') == 1)) else 'lit', 's': cps(x)}
+                      for x in t]
+                plain = methods()
+                if rng.random() < 0.7 and 'GET' not in plain:
+                    plain = sorted(set(plain + ['GET']))
+                steps.append(EV('route', id=n_calls, tmpl=tm, sfx='', plain=plain, sfxm=[]))
+                templates.append(tm)
+            elif kind == 'static':
+                steps.append(EV('static', id=n_calls, prefix=cps('/' + root), fb=rng.random() < 0.5, sl=rng.random() < 0.4))
+                prefixes.append('/' + root)
+            else:
+                steps.append(EV('sink', id=n_calls, pat=[{'k': 'lit', 's': cps('/' if kind == 'sinkroot' else '/' + root)}]))
+            for q in rng.sample(probes, 2):
+                steps.append(('req', rng.choice(('GET', 'GET', 'POST', 'OPTIONS', 'DELETE')), q))
+        sinkpaths.extend(probes)
     total = sum(budget.values())
     for _ in range(total):
         kinds = [k for k, v in budget.items() if v > 0]
@@ -703,7 +832,7 @@ def gen_scenario(rng):
             if not (sfx and not sfxm):
                 templates.append(t)
         elif kind == 'sink':
-            base = rng.choice(['/', '/a', '/ab', '/a/b', '/1', '/c/', '/a/', '/x1/a'] +
+            base = rng.choice(['/', '/a', '/ab', '/a/b', '/1', '/c/', '/a/', '/x1/a', '/v1.0', '/a+b'] +
                               [path_for_template(t) for t in templates[:3]])
             pat = [{'k': 'lit', 's': cps(base)}]
             example = base
@@ -767,6 +896,9 @@ def gen_scenario(rng):
             sinkpaths.append(example + rng.choice(('', '/', '/a', 'b', '7')))
         else:
             pre = '/' + '/'.join(rng.choice(LITS) for _ in range(rng.choice((1, 1, 2))))
+            if rng.random() < 0.15:
+                pre = rng.choice(META_PREFIXES)
+                sinkpaths.extend(v + '/f' for v in meta_variants(pre))
             if prefixes and rng.random() < 0.3:
                 pre = rng.choice(prefixes)                 # the same prefix again (either spelling)
             steps.append(EV('static', id=n_calls, prefix=cps(pre), fb=rng.random() < 0.5, sl=rng.random() < 0.4))
@@ -810,7 +942,7 @@ def run_scenario(sc, asgi, dirs, compiled=None):
 
 
 def leg_b(ctx, dirs):
-    nsc = ctx.pick(250, 4000)
+    nsc = ctx.pick(200, 4000)
     seen = {}
     nreq = 0
     for i in range(nsc):
